@@ -398,6 +398,7 @@ def run(ctx, rep):
     scope_discipline(F, rep)
     scope_walk(F, rep)
     const_flag(F, rep)
+    member_names_are_not_variables(F, rep)
 
 
 def scope_discipline(F, rep):
@@ -654,3 +655,88 @@ def const_flag(F, rep):
            "violated" if bad else ("undecided" if undec else "ok"), "; ".join(bad or undec) or "const bit %s; %s" % (bin(bit), " ".join(rows)), pa.span, fn=pa.path,
            key="C10.const-flag|is_const")
     rep.floor("C10.const-flag admissible flag words", len(valid), 4)
+
+
+def member_names_are_not_variables(F, rep):
+    """Inside a method a bare name never denotes a member of the class (members are reached through `self`; at run time the name resolves to a
+    local, a capture or a module-level variable).  The compile-time lookup that the const checks consult must therefore not let a *class* scope
+    answer for a name once the walk has crossed a function boundary -- or `count += 1` in a method of a class with a member `count` is checked
+    against the member and, at run time, rewrites the module constant `count`.  The lookup is evaluated on scripted scope stacks."""
+    import absint
+    import jumps
+    from absint import Interp, Variant, Opaque, Int, some, NONE
+    lk = F.fn("compiler::parser::AssocFileData::get_dependency_flags_from_name_and_scopes_plus_skip")
+    if lk is None:
+        raise AnchorMissing("AssocFileData::get_dependency_flags_from_name_and_scopes_plus_skip")
+    sc = F.adt("compiler::scope::Scope")
+    st = F.adt("compiler::scope::ScopeType")
+    tn = [v["name"] for v in st["variants"]]
+
+    def scope(kind, has):
+        vi = tn.index(kind)
+        ty = Variant("compiler::scope::ScopeType", vi, kind, [Opaque("p%d" % i) for i in range(len(st["variants"][vi]["fields"]))])
+        return Variant("compiler::scope::Scope", 0, "Scope", [ty if f["name"] == "ty" else (Opaque("vars:%s:%s" % (kind, "yes" if has else "no")) if f["name"] == "variables" else Opaque(f["name"]))
+                                                              for f in sc["variants"][0]["fields"]])
+
+    def contains(it, p, fid, fn, t, args):
+        s = jumps.deref_all(it, p, args[0])
+        if isinstance(s, Variant) and s.adt == "compiler::scope::Scope":
+            for f_ in s.fields:
+                if isinstance(f_, Opaque) and f_.tag.startswith("vars:"):
+                    _, kind, has = f_.tag.split(":")
+                    return some(Opaque("ident-of:" + kind)) if has == "yes" else NONE
+        return NotImplemented
+
+    def filter_map(it, p, fid, fn, t, args):
+        cl = args[1]
+        if not isinstance(cl, absint.Closure):
+            return NotImplemented
+        g = it.lookup_fn(cl.defn)
+        if g is None:
+            return NotImplemented
+        v = args[0]
+
+        def wrap(r):
+            if isinstance(r, Variant) and r.adt == "core::option::Option":
+                return absint.ok(r.fields[0]) if r.name == "Some" else absint.err(v)
+            return Opaque("filter_map")
+        return ("enter", g, [cl, v], wrap)
+    cases = [
+        ("a method body, member and module variable of the same name", [("Function", False), ("Class", True), ("File", True)], "File"),
+        ("a block in a method body", [("IfBlock", False), ("Function", False), ("Class", True), ("File", True)], "File"),
+        ("a local of the method", [("Function", True), ("Class", True), ("File", True)], "Function"),
+        ("a closure in a method", [("Function", False), ("Function", False), ("Class", True), ("File", True)], "File"),
+    ]
+    n = 0
+    for label, stack, want in cases:
+        script = [(Int(k, "usize"), scope(kind, has)) for k, (kind, has) in enumerate(stack)]
+        models = dict(absint.DEFAULT_MODELS)
+        models.update({
+            "core::iter::traits::iterator::Iterator::enumerate": jumps._enumerate,
+            "core::iter::traits::iterator::Iterator::next": jumps._next,
+            "core::iter::traits::collect::IntoIterator::into_iter": lambda it, p, fid, fn, t, args: (
+                jumps.deref_all(it, p, args[0]) if isinstance(jumps.deref_all(it, p, args[0]), jumps.SIter) else NotImplemented),
+            "compiler::scope::Scope::contains": contains,
+            "core::cell::Ref::filter_map": filter_map,
+            "core::cell::Ref::clone": absint._ident,
+        })
+        it = Interp(F, models=models, max_depth=6, max_paths=128, loop_bound=10)
+        outs = it.run(lk, [Opaque("self"), Opaque("name"), jumps.SIter("into", None, script), Int(0, "usize")])
+        ans = set()
+        for o in outs:
+            v = o.value
+            if o.kind == "return" and isinstance(v, Variant) and v.adt == "core::option::Option":
+                if v.name == "Some":
+                    first = v.fields[0].fields[0] if isinstance(v.fields[0], absint.Tup) else v.fields[0]
+                    ans.add(first.tag.split(":")[-1] if isinstance(first, Opaque) and first.tag.startswith("ident-of:") else "?")
+                else:
+                    ans.add("none")
+            else:
+                ans.add("?")
+        n += 1
+        st_ = "ok" if ans == {want} else ("undecided" if ("?" in ans or it.exhausted or not ans) else "violated")
+        rep.ob("C10.scope", "name lookup from %s resolves to the %s scope's variable" % (label, want), st_,
+               "scopes (innermost first) %s: answered by %s" % ([k + ("*" if h else "") for k, h in stack], sorted(ans)) +
+               ("; a class member answers for a bare name inside a method: the const check looks at the member while the program writes the module variable" if (st_ == "violated" and "Class" in ans) else ""),
+               lk.span, fn=lk.path, key="C10.scope|member-names|%s" % label.replace(" ", "-"))
+    rep.floor("C10.scope member-name lookups evaluated", n, 4)
